@@ -9,6 +9,7 @@
 -/
 import Krp.System
 import Krp.Lemmas.Tactics
+import Krp.Lemmas.Emit
 namespace Krp
 open Sys
 
@@ -123,31 +124,44 @@ theorem env_same (s : Sys) (e : EnvOp) (hl : ∀ u b a, e ≠ .seedLegacy u b a)
   | slashUnbonding v n d => simp only [Sys.env]; split <;> exact ⟨rfl, rfl, rfl, rfl, rfl, rfl⟩
   | _ => exact ⟨rfl, rfl, rfl, rfl, rfl, rfl⟩
 
-/-- the six ways a message can touch a contract: each is one call of that contract's executor on
-    its current state (after the attached funds moved), everything else untouched -/
-inductive Touch (s s' : Sys) (ms : List Msg) : Prop where
+/-- the ways a message can touch the contracts: a chain-level message or a call of a stub touches
+    none (and emits at most a payout from the swap stub); otherwise it is exactly one call of one
+    contract's executor on its current state (after the attached funds moved), by the message's own
+    sender, and everything it emits is sent by that contract -/
+inductive Touch (s s' : Sys) (m : Msg) (ms : List Msg) : Prop where
   | none (h : SameContracts s s')
-  | hub (e : HubEnv) (sender : Addr) (funds : List (Denom × Nat)) (m : HubMsg)
-      (hx : hubExec s.hub e sender funds m = .ok (s'.hub, ms))
+      (hm : (∀ a b c d, m ≠ .wasm a b c d) ∨ ∃ a b c d, m = .wasm a b c d ∧ (b = swapA ∨ b = sinkA))
+      (hs : SentBy swapA ms)
+  | hub (e : HubEnv) (sender : Addr) (funds : List (Denom × Nat)) (hm : HubMsg)
+      (heq : m = .wasm sender hubA (.hub hm) funds) (he : e.self = hubA)
+      (hx : hubExec s.hub e sender funds hm = .ok (s'.hub, ms))
       (b : s'.bsei = s.bsei) (t : s'.stsei = s.stsei) (r : s'.reward = s.reward) (d : s'.disp = s.disp) (g : s'.reg = s.reg)
-  | bsei (blk : Block) (rw : Res Addr) (sender : Addr) (m : TokMsg)
-      (hx : bseiExec s.bsei blk bseiA rw hubA sender m = .ok (s'.bsei, ms))
+  | bsei (s1 : Sys) (sender : Addr) (funds : List (Denom × Nat)) (tm : TokMsg)
+      (heq : m = .wasm sender bseiA (.tok tm) funds) (h1 : SameContracts s s1)
+      (hx : bseiExec s.bsei s1.block bseiA s1.bseiRewardAddr hubA sender tm = .ok (s'.bsei, ms))
       (h : s'.hub = s.hub) (t : s'.stsei = s.stsei) (r : s'.reward = s.reward) (d : s'.disp = s.disp) (g : s'.reg = s.reg)
-  | stsei (blk : Block) (sender : Addr) (m : TokMsg)
-      (hx : stseiExec s.stsei blk stseiA hubA sender m = .ok (s'.stsei, ms))
+  | stsei (blk : Block) (sender : Addr) (funds : List (Denom × Nat)) (tm : TokMsg)
+      (heq : m = .wasm sender stseiA (.tok tm) funds)
+      (hx : stseiExec s.stsei blk stseiA hubA sender tm = .ok (s'.stsei, ms))
       (h : s'.hub = s.hub) (b : s'.bsei = s.bsei) (r : s'.reward = s.reward) (d : s'.disp = s.disp) (g : s'.reg = s.reg)
-  | reward (tok disp : Res Addr) (bal : Denom → Nat) (sender : Addr) (m : RewMsg)
-      (hx : rewardExec s.reward rewardA tok disp bal sender m = .ok (s'.reward, ms))
+  | reward (s1 : Sys) (sender : Addr) (funds : List (Denom × Nat)) (rm : RewMsg)
+      (heq : m = .wasm sender rewardA (.reward rm) funds) (h1 : SameContracts s s1)
+      (hx : rewardExec s.reward rewardA (s1.hubTokenOf s1.reward.hub) (s1.hubDispatcherOf s1.reward.hub)
+              (s1.chain.bank rewardA) sender rm = .ok (s'.reward, ms))
       (h : s'.hub = s.hub) (b : s'.bsei = s.bsei) (t : s'.stsei = s.stsei) (d : s'.disp = s.disp) (g : s'.reg = s.reg)
-  | disp (env : DispEnv) (sender : Addr) (m : DispMsg)
-      (hx : dispExec s.disp dispA env sender m = .ok (s'.disp, ms))
+  | disp (env : DispEnv) (sender : Addr) (funds : List (Denom × Nat)) (dm : DispMsg)
+      (heq : m = .wasm sender dispA (.disp dm) funds)
+      (hx : dispExec s.disp dispA env sender dm = .ok (s'.disp, ms))
       (h : s'.hub = s.hub) (b : s'.bsei = s.bsei) (t : s'.stsei = s.stsei) (r : s'.reward = s.reward) (g : s'.reg = s.reg)
-  | reg (s1 : Sys) (sender : Addr) (m : RegMsg) (h1 : s1.reg = s.reg)
-      (hx : s1.regExec sender m = .ok (s'.reg, ms))
+  | reg (s1 : Sys) (sender : Addr) (funds : List (Denom × Nat)) (rm : RegMsg)
+      (heq : m = .wasm sender regA (.reg rm) funds) (h1 : s1.reg = s.reg)
+      (hx : s1.regExec sender rm = .ok (s'.reg, ms))
       (h : s'.hub = s.hub) (b : s'.bsei = s.bsei) (t : s'.stsei = s.stsei) (r : s'.reward = s.reward) (d : s'.disp = s.disp)
 
 theorem handle_touch (s s' : Sys) (m : Msg) (ms : List Msg) (hx : s.handle m = .ok (s', ms)) :
-    Touch s s' ms := by
+    Touch s s' m ms := by
+  have chainMsg : ∀ {m : Msg}, (∀ a b c d, m ≠ .wasm a b c d) →
+      (∀ a b c d, m ≠ .wasm a b c d) ∨ ∃ a b c d, m = .wasm a b c d ∧ (b = swapA ∨ b = sinkA) := fun h => Or.inl h
   cases m with
   | bankSend src dst d amt =>
     simp only [Sys.handle] at hx
@@ -157,32 +171,32 @@ theorem handle_touch (s s' : Sys) (m : Msg) (ms : List Msg) (hx : s.handle m = .
     · rename_i s1 h1
       have b := bankMove_same s s1 src dst d amt h1
       cases hx
-      exact .none b
+      exact .none b (chainMsg (fun _ _ _ _ h => by cases h)) (SentBy.nil _)
   | delegate who v amt =>
     simp only [Sys.handle] at hx
     exc_norm at hx
     exc_split at hx
-    exact .none ⟨rfl, rfl, rfl, rfl, rfl, rfl⟩
+    exact .none ⟨rfl, rfl, rfl, rfl, rfl, rfl⟩ (chainMsg (fun _ _ _ _ h => by cases h)) (SentBy.nil _)
   | undelegate who v amt =>
     simp only [Sys.handle] at hx
     exc_norm at hx
     exc_split at hx
-    exact .none ⟨rfl, rfl, rfl, rfl, rfl, rfl⟩
+    exact .none ⟨rfl, rfl, rfl, rfl, rfl, rfl⟩ (chainMsg (fun _ _ _ _ h => by cases h)) (SentBy.nil _)
   | redelegate who src dst amt =>
     simp only [Sys.handle] at hx
     exc_norm at hx
     exc_split at hx
-    exact .none ⟨rfl, rfl, rfl, rfl, rfl, rfl⟩
+    exact .none ⟨rfl, rfl, rfl, rfl, rfl, rfl⟩ (chainMsg (fun _ _ _ _ h => by cases h)) (SentBy.nil _)
   | withdrawReward who v =>
     simp only [Sys.handle] at hx
     exc_norm at hx
     exc_split at hx
-    exact .none ⟨rfl, rfl, rfl, rfl, rfl, rfl⟩
+    exact .none ⟨rfl, rfl, rfl, rfl, rfl, rfl⟩ (chainMsg (fun _ _ _ _ h => by cases h)) (SentBy.nil _)
   | setWithdrawAddr who a =>
     simp only [Sys.handle] at hx
     exc_norm at hx
     exc_split at hx
-    exact .none ⟨rfl, rfl, rfl, rfl, rfl, rfl⟩
+    exact .none ⟨rfl, rfl, rfl, rfl, rfl, rfl⟩ (chainMsg (fun _ _ _ _ h => by cases h)) (SentBy.nil _)
   | wasm sender target call funds =>
     simp only [Sys.handle] at hx
     exc_norm at hx
@@ -198,7 +212,7 @@ theorem handle_touch (s s' : Sys) (m : Msg) (ms : List Msg) (hx : s.handle m = .
           · cases hx
           · rename_i r hr
             cases hx
-            refine .hub s1.hubEnv sender funds hm ?_ sc.bsei sc.stsei sc.reward sc.disp sc.reg
+            refine .hub s1.hubEnv sender funds hm (by rw [t1]) rfl ?_ sc.bsei sc.stsei sc.reward sc.disp sc.reg
             rw [← sc.hub]; exact hr
         · cases hx
       · simp only [t1, if_false] at hx
@@ -210,7 +224,7 @@ theorem handle_touch (s s' : Sys) (m : Msg) (ms : List Msg) (hx : s.handle m = .
             · cases hx
             · rename_i r hr
               cases hx
-              refine .bsei s1.block s1.bseiRewardAddr sender tm ?_ sc.hub sc.stsei sc.reward sc.disp sc.reg
+              refine .bsei s1 sender funds tm (by rw [t2]) sc ?_ sc.hub sc.stsei sc.reward sc.disp sc.reg
               rw [← sc.bsei]; exact hr
           · cases hx
         · simp only [t2, if_false] at hx
@@ -222,7 +236,7 @@ theorem handle_touch (s s' : Sys) (m : Msg) (ms : List Msg) (hx : s.handle m = .
               · cases hx
               · rename_i r hr
                 cases hx
-                refine .stsei s1.block sender tm ?_ sc.hub sc.bsei sc.reward sc.disp sc.reg
+                refine .stsei s1.block sender funds tm (by rw [t3]) ?_ sc.hub sc.bsei sc.reward sc.disp sc.reg
                 rw [← sc.stsei]; exact hr
             · cases hx
           · simp only [t3, if_false] at hx
@@ -234,7 +248,7 @@ theorem handle_touch (s s' : Sys) (m : Msg) (ms : List Msg) (hx : s.handle m = .
                 · cases hx
                 · rename_i r hr
                   cases hx
-                  refine .reward (s1.hubTokenOf s1.reward.hub) (s1.hubDispatcherOf s1.reward.hub) (s1.chain.bank rewardA) sender rm ?_ sc.hub sc.bsei sc.stsei sc.disp sc.reg
+                  refine .reward s1 sender funds rm (by rw [t4]) sc ?_ sc.hub sc.bsei sc.stsei sc.disp sc.reg
                   rw [← sc.reward]; exact hr
               · cases hx
             · simp only [t4, if_false] at hx
@@ -246,7 +260,7 @@ theorem handle_touch (s s' : Sys) (m : Msg) (ms : List Msg) (hx : s.handle m = .
                   · cases hx
                   · rename_i r hr
                     cases hx
-                    refine .disp s1.dispEnv sender dm ?_ sc.hub sc.bsei sc.stsei sc.reward sc.reg
+                    refine .disp s1.dispEnv sender funds dm (by rw [t5]) ?_ sc.hub sc.bsei sc.stsei sc.reward sc.reg
                     rw [← sc.disp]; exact hr
                 · cases hx
               · simp only [t5, if_false] at hx
@@ -258,15 +272,72 @@ theorem handle_touch (s s' : Sys) (m : Msg) (ms : List Msg) (hx : s.handle m = .
                     · cases hx
                     · rename_i r hr
                       cases hx
-                      exact .reg s1 sender rm sc.reg hr sc.hub sc.bsei sc.stsei sc.reward sc.disp
+                      exact .reg s1 sender funds rm (by rw [t6]) sc.reg hr sc.hub sc.bsei sc.stsei sc.reward sc.disp
                   · cases hx
                 · simp only [t6, if_false] at hx
                   by_cases t7 : target = swapA
                   · simp only [t7, if_true] at hx
                     exc_split at hx
-                    all_goals exact .none sc
+                    all_goals
+                      refine .none sc (Or.inr ⟨_, _, _, _, rfl, Or.inl t7⟩) ?_
+                      first | exact SentBy.nil _ | exact SentBy.cons rfl (SentBy.nil _)
                   · simp only [t7, if_false] at hx
                     exc_split at hx
-                    exact .none sc
+                    rename_i t8
+                    exact .none sc (Or.inr ⟨_, _, _, _, rfl, Or.inr t8⟩) (SentBy.nil _)
+
+/-- every message emitted while handling `m` is sent by the contract that handled it -/
+theorem handle_sentBy (s s' : Sys) (m : Msg) (ms : List Msg) (hx : s.handle m = .ok (s', ms)) :
+    (∀ a b c d, m = .wasm a b c d → SentBy b ms) ∧ ((∀ a b c d, m ≠ .wasm a b c d) → ms = []) := by
+  refine ⟨fun a b c d hm => ?_, fun hm => ?_⟩
+  · cases handle_touch s s' m ms hx with
+    | none h hm' hs =>
+      rcases hm' with hm' | ⟨a', b', c', d', heq, ht⟩
+      · exact absurd hm (hm' a b c d)
+      · rw [hm] at heq; injection heq with _ e2 _ _
+        subst e2
+        intro x hx'
+        have := hs x hx'
+        cases ms with
+        | nil => cases hx'
+        | cons y ys =>
+          rcases ht with ht | ht
+          · rw [ht]; exact this
+          · exfalso
+            -- the sink emits nothing
+            subst hm
+            simp only [Sys.handle] at hx
+            exc_norm at hx
+            split at hx
+            · cases hx
+            · simp only [ht, sinkA, hubA, bseiA, stseiA, rewardA, dispA, regA, swapA] at hx
+              simp at hx
+    | hub e sender funds hm' heq he hx' b' t r d' g =>
+      rw [hm] at heq; injection heq with _ e2 _ _; subst e2
+      have := hubExec_sentBy _ _ _ _ _ _ _ hx'; rw [he] at this; exact this
+    | bsei s1 sender funds tm heq h1 hx' h t r d' g =>
+      rw [hm] at heq; injection heq with _ e2 _ _; subst e2
+      exact bseiExec_sentBy _ _ _ _ _ _ _ _ _ hx'
+    | stsei blk sender funds tm heq hx' h b' r d' g =>
+      rw [hm] at heq; injection heq with _ e2 _ _; subst e2
+      exact stseiExec_sentBy _ _ _ _ _ _ _ _ hx'
+    | reward s1 sender funds rm heq h1 hx' h b' t d' g =>
+      rw [hm] at heq; injection heq with _ e2 _ _; subst e2
+      exact rewardExec_sentBy _ _ _ _ _ _ _ _ _ hx'
+    | disp env sender funds dm heq hx' h b' t r g =>
+      rw [hm] at heq; injection heq with _ e2 _ _; subst e2
+      exact dispExec_sentBy _ _ _ _ _ _ _ hx'
+    | reg s1 sender funds rm heq h1 hx' h b' t r d' =>
+      rw [hm] at heq; injection heq with _ e2 _ _; subst e2
+      exact regExec_sentBy _ _ _ _ _ hx'
+  · cases m with
+    | wasm a b c d => exact absurd rfl (hm a b c d)
+    | bankSend src dst d amt =>
+      simp only [Sys.handle] at hx; exc_norm at hx; exc_split at hx; rfl
+    | delegate who v amt => simp only [Sys.handle] at hx; exc_norm at hx; exc_split at hx; rfl
+    | undelegate who v amt => simp only [Sys.handle] at hx; exc_norm at hx; exc_split at hx; rfl
+    | redelegate who src dst amt => simp only [Sys.handle] at hx; exc_norm at hx; exc_split at hx; rfl
+    | withdrawReward who v => simp only [Sys.handle] at hx; exc_norm at hx; exc_split at hx; rfl
+    | setWithdrawAddr who a => simp only [Sys.handle] at hx; exc_norm at hx; exc_split at hx; rfl
 
 end Krp
